@@ -131,6 +131,8 @@ State0  == [vars |-> NoFrame, funcs |-> <<>>, out |-> "", depth |-> 0, inloop |-
             otags |-> <<>>,     \* tag of each object
             oev |-> <<>>,       \* create / method events the module must have seen, in order
             locked |-> {},      \* variables being traversed by forall: read-only until the loop is left
+            itype |-> NoFrame,  \* loop variables of the running loops: the exact type they must keep (the element type of the
+                                \* traversed table, integer for a for loop) for as long as the loop runs
             unk |-> FALSE]      \* unk: the trace monitor lost track of this context (after an unpinned step)
 
 SetVar(S, n, v) == [S EXCEPT !.vars = [x \in (DOMAIN S.vars) \cup {n} |-> IF x = n THEN v ELSE S.vars[x]]]
@@ -482,9 +484,9 @@ CallUser(e, S, vs) ==
     LET f  == S.funcs[fi]
         S1 == [S EXCEPT !.vars = [x \in {f.ps[i] : i \in DOMAIN f.ps} |->
                                     vs[CHOOSE i \in DOMAIN f.ps : f.ps[i] = x]],
-                        !.depth = @ + 1, !.rv = VNil, !.hasrv = FALSE, !.cerr = NoErr, !.inloop = 0, !.locked = {}]
+                        !.depth = @ + 1, !.rv = VNil, !.hasrv = FALSE, !.cerr = NoErr, !.inloop = 0, !.locked = {}, !.itype = NoFrame]
         S2 == ExecList(f.b, S1)
-        back == [S2 EXCEPT !.vars = S.vars, !.depth = S.depth, !.rv = S.rv, !.hasrv = S.hasrv, !.cerr = S.cerr, !.inloop = S.inloop, !.locked = S.locked]
+        back == [S2 EXCEPT !.vars = S.vars, !.depth = S.depth, !.rv = S.rv, !.hasrv = S.hasrv, !.cerr = S.cerr, !.inloop = S.inloop, !.locked = S.locked, !.itype = S.itype]
     IN  IF Failed(S2) THEN [S |-> back, v |-> VNil]
         ELSE R([back EXCEPT !.sig = ""], IF S2.sig = "ret" /\ S2.hasrv THEN S2.rv ELSE VNil)
 
@@ -552,6 +554,9 @@ Eval(e, S) ==
     [] OTHER -> RE(S, EOther("wide"))
 
 (* ------------------------------ statements ---------------------------- *)
+SetIt(f, n, ty) == [x \in (DOMAIN f) \cup {n} |-> IF x = n THEN ty ELSE f[x]]
+\* exact type equality (a null has no tuple structure)
+SameType(t1, t2, isnull) == t1.m = t2.m /\ t1.l = t2.l /\ (isnull \/ t1.m # "row" \/ t1.d = t2.d)
 ExecList(ss, S) ==
   IF ss = <<>> \/ S.sig # "" THEN S
   ELSE ExecList(Tail(ss), Exec(Head(ss), S))
@@ -614,7 +619,11 @@ Handle(hs, e, S) ==
 Exec(s, S) ==
   CASE s.k = "nop" -> S
     [] s.k = "let" -> IF s.n \in S.locked THEN Raise(S, EOther("const"))
-                      ELSE LET r == Eval(s.e, S) IN IF Failed(r.S) THEN r.S ELSE SetVar(r.S, s.n, r.v)
+                      ELSE LET r == Eval(s.e, S) IN
+                           IF Failed(r.S) THEN r.S
+                           \* a loop variable keeps the exact type of what it stands for (else the table would not stay uniform)
+                           ELSE IF s.n \in DOMAIN S.itype /\ ~SameType(TypeOf(r.v), S.itype[s.n], IsNull(r.v)) THEN Raise(r.S, EOther("type"))
+                           ELSE SetVar(r.S, s.n, r.v)
     [] s.k = "letn" -> SetVar(S, s.n, VNull(s.ty))
     [] s.k = "do"  -> Eval(s.e, S).S
     [] s.k = "print" \/ s.k = "put" ->
@@ -637,9 +646,9 @@ Exec(s, S) ==
          ELSE IF rs.v.v < 1 THEN Raise(rs.S, ERange)
          ELSE LET a == ra.v.v  b == rb.v.v  st == rs.v.v IN
               IF b > a THEN IF s.dir = "desc" THEN rs.S
-                            ELSE [ForLoop(s, [SetVar(rs.S, s.n, VInt(a)) EXCEPT !.inloop = @ + 1], a, b, st, Fuel) EXCEPT !.inloop = S.inloop]
+                            ELSE [ForLoop(s, [SetVar(rs.S, s.n, VInt(a)) EXCEPT !.inloop = @ + 1, !.itype = SetIt(@, s.n, TInt)], a, b, st, Fuel) EXCEPT !.inloop = S.inloop, !.itype = S.itype]
               ELSE IF s.dir = "asc" /\ a # b THEN rs.S
-                   ELSE [ForLoop(s, [SetVar(rs.S, s.n, VInt(a)) EXCEPT !.inloop = @ + 1], b, a, -st, Fuel) EXCEPT !.inloop = S.inloop]
+                   ELSE [ForLoop(s, [SetVar(rs.S, s.n, VInt(a)) EXCEPT !.inloop = @ + 1, !.itype = SetIt(@, s.n, TInt)], b, a, -st, Fuel) EXCEPT !.inloop = S.inloop, !.itype = S.itype]
     [] s.k = "forall" ->
          LET pl == IsPlace(s.t)
              rt == IF pl THEN LoadPath(s.t, S) ELSE Eval(s.t, S) IN
@@ -649,8 +658,8 @@ Exec(s, S) ==
          ELSE LET n == Len(rt.v.v)
                   idxs == IF s.dir = "desc" THEN [i \in 1..n |-> n + 1 - i] ELSE [i \in 1..n |-> i]
                   lk == IF pl THEN {RootVar(s.t)} ELSE {}
-                  S2 == [ForallLoop([s EXCEPT !.tv = rt.v], [rt.S EXCEPT !.inloop = @ + 1, !.locked = @ \cup lk], idxs, pl, Fuel)
-                           EXCEPT !.inloop = S.inloop, !.locked = S.locked]
+                  S2 == [ForallLoop([s EXCEPT !.tv = rt.v], [rt.S EXCEPT !.inloop = @ + 1, !.locked = @ \cup lk, !.itype = SetIt(@, s.n, ElemType(rt.v.ty))], idxs, pl, Fuel)
+                           EXCEPT !.inloop = S.inloop, !.locked = S.locked, !.itype = S.itype]
               IN  \* after the loop (however it is left) the iterator variable is empty: a null whose type
                   \* the manual does not pin
                   IF n = 0 THEN S2 ELSE SetVar(S2, s.n, VNull(TAny))
